@@ -103,9 +103,10 @@ type Interp struct {
 	notes    []string
 	timeNow  *Term
 	chanSeq  int
-	sched    *Sched
 	pcH1, pcH2 uint64
 	skipStub *ssa.Function
+	ts       *threadSys
+	tags     []string
 	onFSEffect func(it *Interp, e FSEffect)
 	fsFaultsOff bool
 	cache    *SatCache
@@ -891,6 +892,10 @@ func (it *Interp) spawn(fnv Value, args []Value, call *ssa.CallCommon) {
 		label = f.fn.Name()
 	case *BoundMethod:
 		label = f.fn.Name()
+	}
+	if it.threadsOn() {
+		it.spawnThread(fnv, args, label)
+		return
 	}
 	pg := &pendingGo{fnv: fnv, args: args, call: call, label: label}
 	it.pending = append(it.pending, pg)
@@ -2077,13 +2082,26 @@ func (it *Interp) builtin(name string, args []Value, site *ssa.CallCommon) Value
 func (it *Interp) chanSend(chv, v Value) {
 	ch, _ := chv.(*ChanObj)
 	if ch == nil {
+		if it.threadsOn() {
+			it.block(func() bool { return false }, "send on nil channel")
+		}
 		panic(pathEnd{"blocked", "send on nil channel at " + it.site()})
 	}
+	it.yield("send")
 	if ch.closed {
 		panic(&goPanic{msg: "send on closed channel", runtime: true, site: it.site()})
 	}
 	if len(ch.buf) < ch.cp {
 		ch.buf = append(ch.buf, v)
+		return
+	}
+	if it.threadsOn() {
+		item := &sendItem{v: v}
+		ch.sendq = append(ch.sendq, item)
+		it.block(func() bool { return item.taken || ch.closed }, "channel send")
+		if !item.taken {
+			panic(&goPanic{msg: "send on closed channel", runtime: true, site: it.site()})
+		}
 		return
 	}
 	if it.job.OnBlockedSend != nil && it.job.OnBlockedSend(it, ch, v) {
@@ -2092,31 +2110,68 @@ func (it *Interp) chanSend(chv, v Value) {
 	panic(pathEnd{"blocked", "send would block at " + it.site()})
 }
 
-func (it *Interp) chanRecv(chv Value) (Value, bool) {
-	ch, _ := chv.(*ChanObj)
-	if ch == nil {
-		panic(pathEnd{"blocked", "receive on nil channel at " + it.site()})
-	}
+type sendItem struct {
+	v     Value
+	taken bool
+}
+
+// takeFrom pops a value from the channel if one is available.
+func (it *Interp) takeFrom(ch *ChanObj) (Value, bool) {
 	if len(ch.buf) > 0 {
 		v := ch.buf[0]
 		ch.buf = ch.buf[1:]
+		if len(ch.sendq) > 0 {
+			s := ch.sendq[0]
+			ch.sendq = ch.sendq[1:]
+			s.taken = true
+			ch.buf = append(ch.buf, s.v)
+		}
 		return v, true
 	}
-	if ch.closed {
-		return it.zero(ch.elem), false
+	if len(ch.sendq) > 0 {
+		s := ch.sendq[0]
+		ch.sendq = ch.sendq[1:]
+		s.taken = true
+		return s.v, true
 	}
-	if ch.maybeReady {
-		if it.branch(it.fresh("ready_"+ch.label, SBool), "chanready") {
-			return ch.readyVal, true
+	return nil, false
+}
+
+func (it *Interp) chanRecv(chv Value) (Value, bool) {
+	ch, _ := chv.(*ChanObj)
+	if ch == nil {
+		if it.threadsOn() {
+			it.block(func() bool { return false }, "receive on nil channel")
 		}
+		panic(pathEnd{"blocked", "receive on nil channel at " + it.site()})
 	}
-	panic(pathEnd{"blocked", "receive would block at " + it.site()})
+	it.yield("recv")
+	for {
+		if v, ok := it.takeFrom(ch); ok {
+			return v, true
+		}
+		if ch.closed {
+			return it.zero(ch.elem), false
+		}
+		if ch.maybeReady {
+			if it.branch(it.fresh("ready_"+ch.label, SBool), "chanready") {
+				return ch.readyVal, true
+			}
+		}
+		if !it.threadsOn() {
+			panic(pathEnd{"blocked", "receive would block at " + it.site()})
+		}
+		ch.recvWaiting++
+		it.block(func() bool { return len(ch.buf) > 0 || len(ch.sendq) > 0 || ch.closed }, "channel receive")
+		ch.recvWaiting--
+	}
 }
 
 func (it *Interp) doSelect(fr *frame, x *ssa.Select) Value {
 	type rc struct {
 		idx int
 	}
+	it.yield("select")
 	var ready []int
 	chans := make([]*ChanObj, len(x.States))
 	sendVals := make([]Value, len(x.States))
@@ -2129,11 +2184,11 @@ func (it *Interp) doSelect(fr *frame, x *ssa.Select) Value {
 		}
 		if st.Dir == types.SendOnly {
 			sendVals[i] = it.get(fr, st.Send)
-			if ch.closed || len(ch.buf) < ch.cp {
+			if ch.closed || len(ch.buf) < ch.cp || (ch.cp == 0 && ch.recvWaiting > 0) {
 				ready = append(ready, i)
 			}
 		} else {
-			if len(ch.buf) > 0 || ch.closed {
+			if len(ch.buf) > 0 || len(ch.sendq) > 0 || ch.closed {
 				ready = append(ready, i)
 			} else if ch.maybeReady {
 				maybe = append(maybe, i)
@@ -2176,6 +2231,35 @@ func (it *Interp) doSelect(fr *frame, x *ssa.Select) Value {
 				chosen = c
 				goto take
 			}
+		}
+		if it.threadsOn() {
+			for i, st := range x.States {
+				if st.Dir == types.RecvOnly && chans[i] != nil {
+					chans[i].recvWaiting++
+				}
+			}
+			it.block(func() bool {
+				for i, st := range x.States {
+					ch := chans[i]
+					if ch == nil {
+						continue
+					}
+					if st.Dir == types.SendOnly {
+						if ch.closed || len(ch.buf) < ch.cp || (ch.cp == 0 && ch.recvWaiting > 0) {
+							return true
+						}
+					} else if len(ch.buf) > 0 || len(ch.sendq) > 0 || ch.closed {
+						return true
+					}
+				}
+				return false
+			}, "select")
+			for i, st := range x.States {
+				if st.Dir == types.RecvOnly && chans[i] != nil {
+					chans[i].recvWaiting--
+				}
+			}
+			return it.doSelect(fr, x)
 		}
 		panic(pathEnd{"blocked", "select with no ready case at " + it.site()})
 	}
